@@ -113,7 +113,7 @@ func (a *cbpAnchors) multi(m *cbpMore) *multiAnchors {
 		return x
 	}
 	x.recvT = core.NamedOf(fn.Signature.Recv().Type())
-	st, _ := x.recvT.Underlying().(*types.Struct)
+	st := core.FlatStruct(x.recvT)
 	for i := 0; st != nil && i < st.NumFields(); i++ {
 		f := st.Field(i)
 		switch {
@@ -197,7 +197,7 @@ func (a *cbpAnchors) multi(m *cbpMore) *multiAnchors {
 			}
 		})
 		// keys field: []string field of the processor ranged over in consume
-		ps := m.procType.Underlying().(*types.Struct)
+		ps := core.FlatStruct(m.procType)
 		for i := 0; i < ps.NumFields(); i++ {
 			if sl, ok := ps.Field(i).Type().Underlying().(*types.Slice); ok {
 				if b, ok := sl.Elem().Underlying().(*types.Basic); ok && b.Kind() == types.String {
